@@ -2,7 +2,7 @@
 import re
 
 from analysis import (membership_test, mirror, Prov, Guards, fmt, fmt_short, walk, roots, short, comparison, find_calls, callee_matches,
-                      must_pass, const_int_of, normalised_cmp, canon, field_writes, closures_of, subst_expr, cmp_intervals)
+                      must_pass, const_int_of, normalised_cmp, canon, field_writes, closures_of, subst_expr, cmp_intervals, flag_cases)
 from facts import AnchorError, strip_closure
 from harness import Rule, guarded
 from c01 import bool_pass_edges
@@ -250,13 +250,12 @@ def r2(ctx):
             akey = _akey(b, abi, at)
             err_edges = []
             for bi, t, e in g.switches():
-                inner, neg = e, False
-                while inner[0] == "un" and inner[1] == "Not":
-                    inner, neg = inner[2], not neg
-                if inner[0] == "call" and re.search(r"Result::is_(err|ok)$", short(inner[1])) and inner[2][0][0] == "call" and inner[2][0][3] == akey:
-                    f, tr = g.bool_edges(bi)
-                    is_err = short(inner[1]).endswith("is_err")
-                    err_edges.append((bi, (tr if is_err else f) if not neg else (f if is_err else tr)))
+                for inner, on_true, val in flag_cases(e):
+                    if inner[0] == "call" and re.search(r"Result::is_(err|ok)$", short(inner[1])) and inner[2][0][0] == "call" and inner[2][0][3] == akey:
+                        f, tr = g.bool_edges(bi)
+                        is_err = short(inner[1]).endswith("is_err")
+                        if val == is_err:          # on this edge the call returned Err
+                            err_edges.append((bi, tr if on_true else f))
                 if e[0] == "discr" and e[1][0] == "call" and e[1][3] == akey:
                     names, _ = g.variant_names(bi)
                     err_edges += [(bi, tb) for v, tb in t.vals if names.get(v) == "Err"]
